@@ -10,4 +10,10 @@ CHECKS = {
         text="Exhaustive enumeration of every ordered sequence of <=3 (4 on small sizes) range specs over numbers 0..size+1 for every size in the bound, every junk string up to a length over a token alphabet, all orders of chained-overlap sets, and huge-number cases; each result compared with a bitmask set-semantics reference. A pure function of two small arguments: complete enumeration inside the bound is the strongest statement available short of proof.",
         note="numbers <= size+1 except the listed big-integer cases; <= 4 specs (7 in the chain family); for text outside the grammar only structural canonicity is demanded",
     ),
+    "C08": dict(
+        engine="explore", level="exploration", design_ref="DESIGN.md §3 C08",
+        technique="bounded exhaustive enumeration of ordered route tables x paths against a regex-free reference matcher",
+        text="Every ordered table of <=2 (thorough 3) patterns from an 18-pattern list (all convertor types, literals with regex metacharacters) x every path of <=2 (3) segments from a 25-value segment list incl. near-misses, trailing newline, Unicode digits and 5000-digit numbers, through both Router classes and the gateway drivers; endpoint identity and typed parameters compared with a hand-written matcher; to_string round trip for every listed denoted value.",
+        note="pattern shapes with a unique split only; finite pattern and segment lists; reference language predicates written by hand from the property text",
+    ),
 }
